@@ -113,11 +113,13 @@ def handleText (stream : String) (text : String) (out : Sexp) : CaseResult :=
     .list [.atom "instruction", enc encodeInstruction mi],
     .list [.atom "expression", enc encodeExpr me],
     .list [.atom "memref", enc encodeMemRef mm],
-    .list [.atom "frame", enc encodeFrame mf]]
+    .list [.atom "frame", enc encodeFrame mf],
+    -- extra entry points (ExternSignature, ReservedToken, Command, … ::from_str): specification only
+    .list [.atom "extra", .list [.atom "done"]]]
   let agree := mOut == out
   -- the decoder is exercised on every AST the implementation returned: decode ∘ encode = id
   let decodeOk := match out with
-    | .list [_, _, _, .list [_, .list [.atom "ok", a]], _, _, _] =>
+    | .list [_, _, _, .list [_, .list [.atom "ok", a]], _, _, _, _] =>
       (match decodeInstruction a with
        | some i => encodeInstruction i == a
        | none => false)
@@ -128,6 +130,29 @@ def handleText (stream : String) (text : String) (out : Sexp) : CaseResult :=
       ++ variantTags mp ++ kfTags ts out ++ (if decodeOk then [] else ["DECODE-MISMATCH"]),
     detail := if agree && decodeOk then "" else s!"model={mOut} impl={out}" }
 
+/-- number of infix-operator characters in a text (classifier of `C01/deep-expression-drop`) -/
+def operatorChars (text : String) : Nat :=
+  text.toList.countP fun c => c == '+' || c == '-' || c == '*' || c == '/' || c == '^'
+
+/-- Known finding `C01/deep-expression-drop`: a FLAT expression with tens of thousands of infix operators
+(`1+1+…+1`, no nesting in the text) parses iteratively into a left-leaning tree whose recursive printer,
+`Debug` and `Drop` overflow the stack.  Classifier: the process aborted AND the text holds at least this
+many operator characters (the smallest aborting size measured is about 50 000 for `{:?}`, 100 000 for
+`to_quil`, 200 000 for `Drop`). -/
+def flatThreshold : Nat := 25000
+
+/-- Very large inputs: specification only (no crash / abort / timeout) plus the expected class of
+`Program::from_str`, which the generator knows by construction; the quadratic models are not run. -/
+def handleBig (stream expected text : String) (out : Sexp) : CaseResult :=
+  let want : Sexp := .list [.atom "big", .list [.atom expected], .list [.atom "done"]]
+  let kf :=
+    (if isAbort out && operatorChars text ≥ flatThreshold then ["kf:C01/deep-expression-drop"] else []) ++
+    (if isAbort out && (textParenDepth text.toList ≥ parenThreshold || textBlockHeads text ≥ blockThreshold)
+      then ["kf:C01/deep-nesting"] else [])
+  { agree := want == out, specOk := !hasCrash out, nontrivial := true,
+    tags := ["bigtext", "s-" ++ stream, "len65+", "expect-" ++ expected] ++ kf,
+    detail := s!"expected={want} impl={out} ({text.length} characters)" }
+
 def handle (inp out : Sexp) : CaseResult :=
   match inp with
   | .list [.atom "toks", .atom stream, .list toks] =>
@@ -135,6 +160,7 @@ def handle (inp out : Sexp) : CaseResult :=
     | some ts => handleToks stream ts out
     | none => .bad s!"undecodable tokens {inp}"
   | .list [.atom "text", .atom stream, .str text] => handleText stream text out
+  | .list [.atom "bigtext", .atom stream, .atom expected, .str text] => handleBig stream expected text out
   | _ => .bad s!"undecodable input {inp}"
 
 end QV.C01
